@@ -15,10 +15,11 @@ inductive Query
   | spki (k : PubKey)                                      -- public_bytes(DER, SubjectPublicKeyInfo)
   | sigVerify (k : PubKey) (s : Scheme) (sig data : Bytes) -- public_key.verify(...)
   | x509Load (der : Bytes)                                 -- load_der_x509_certificate + field reads
-  | chainVerify (leaf : Bytes) (inter : List Bytes) (roots : List Bytes) -- OpenSSL path validation, now
+  | chainVerify (leaf : Bytes) (inter : List Bytes) (roots : List Root) -- OpenSSL path validation, now
   | keyDescription (der : Bytes)                           -- asn1crypto KeyDescription.load
   | nowSeconds                                             -- int(time.time())
   | tokenBytes (k n : Nat)                                 -- k-th secrets.token_bytes(n) of this call
+  | builtinPem (name : String)                             -- the PEM constant of known_root_certs.py
   deriving Repr
 
 def Answer : Query → Type
@@ -33,6 +34,7 @@ def Answer : Query → Type
   | .keyDescription _ => Option KeyDescView
   | .nowSeconds => Int
   | .tokenBytes _ _ => Bytes
+  | .builtinPem _ => Bytes
 
 abbrev World := (q : Query) → Answer q
 
@@ -46,7 +48,9 @@ def keyLoad (k : PubKey) : Bool := W (.keyLoad k)
 def spki (k : PubKey) : Bytes := W (.spki k)
 def sigVerify (k : PubKey) (s : Scheme) (sig data : Bytes) : SigOutcome := W (.sigVerify k s sig data)
 def x509Load (der : Bytes) : Option CertView := W (.x509Load der)
-def chainVerify (leaf : Bytes) (inter roots : List Bytes) : ChainOutcome := W (.chainVerify leaf inter roots)
+def chainVerify (leaf : Bytes) (inter : List Bytes) (roots : List Root) : ChainOutcome :=
+  W (.chainVerify leaf inter roots)
+def builtinPem (name : String) : Bytes := W (.builtinPem name)
 def keyDescription (der : Bytes) : Option KeyDescView := W (.keyDescription der)
 def nowSeconds : Int := W .nowSeconds
 def tokenBytes (k n : Nat) : Bytes := W (.tokenBytes k n)
@@ -148,7 +152,9 @@ def keyLoadM (k : PubKey) : M Bool := askM (.keyLoad k)
 def spkiM (k : PubKey) : M Bytes := askM (.spki k)
 def sigVerifyM (k : PubKey) (s : Scheme) (sig data : Bytes) : M SigOutcome := askM (.sigVerify k s sig data)
 def x509LoadM (der : Bytes) : M (Option CertView) := askM (.x509Load der)
-def chainVerifyM (leaf : Bytes) (inter roots : List Bytes) : M ChainOutcome := askM (.chainVerify leaf inter roots)
+def chainVerifyM (leaf : Bytes) (inter : List Bytes) (roots : List Root) : M ChainOutcome :=
+  askM (.chainVerify leaf inter roots)
+def builtinPemM (name : String) : M Bytes := askM (.builtinPem name)
 def keyDescriptionM (der : Bytes) : M (Option KeyDescView) := askM (.keyDescription der)
 def nowSecondsM : M Int := askM .nowSeconds
 def tokenBytesM (k n : Nat) : M Bytes := askM (.tokenBytes k n)
@@ -172,6 +178,8 @@ def tokenBytesM (k n : Nat) : M Bytes := askM (.tokenBytes k n)
     runM W (x509LoadM der >>= f) = runM W (f (W.x509Load der)) := runM_askM_bind W (.x509Load der) f
 @[simp] theorem runM_chainVerifyM_bind {β} (W : World) (l i r) (f : ChainOutcome → M β) :
     runM W (chainVerifyM l i r >>= f) = runM W (f (W.chainVerify l i r)) := runM_askM_bind W (.chainVerify l i r) f
+@[simp] theorem runM_builtinPemM_bind {β} (W : World) (n) (f : Bytes → M β) :
+    runM W (builtinPemM n >>= f) = runM W (f (W.builtinPem n)) := runM_askM_bind W (.builtinPem n) f
 @[simp] theorem runM_keyDescriptionM_bind {β} (W : World) (der) (f : Option KeyDescView → M β) :
     runM W (keyDescriptionM der >>= f) = runM W (f (W.keyDescription der)) :=
   runM_askM_bind W (.keyDescription der) f
